@@ -54,6 +54,8 @@ type Case struct {
 	// JSON: the exporting process is configured with SendJSONRecord (phase json_mode, tcp): templates
 	// are registered but not written, every record of a valid data set goes out as one JSON document
 	JSON bool `json:"json,omitempty"`
+	// JSONBufLen: the JSONBufferLen setting (initial size of the per-record buffer; 0 = default)
+	JSONBufLen int `json:"json_buf_len,omitempty"`
 }
 
 var (
@@ -466,7 +468,7 @@ func runJSON(c Case, st *Stats) *ev.Failure {
 	}
 	defer peer.Close()
 	ep, err := exporter.InitExportingProcess(exporter.ExporterInput{CollectorAddress: peer.Addr, CollectorProtocol: "tcp", ObservationDomainID: 77,
-		TempRefTimeout: 3600, CheckConnInterval: time.Hour, SendJSONRecord: true})
+		TempRefTimeout: 3600, CheckConnInterval: time.Hour, SendJSONRecord: true, JSONBufferLen: c.JSONBufLen})
 	if err != nil {
 		return ev.Failf("InitExportingProcess (JSON mode): %v", err)
 	}
@@ -605,7 +607,7 @@ func runJSON(c Case, st *Stats) *ev.Failure {
 }
 
 func genJSONCase(t *rapid.T) Case {
-	c := Case{Proto: "tcp", JSON: true}
+	c := Case{Proto: "tcp", JSON: true, JSONBufLen: rapid.SampledFrom([]int{0, 0, 1, 64, 100000, -5}).Draw(t, "json_buf_len")}
 	var jp []ref.Field
 	for _, f := range pool {
 		if jsonOK(f) {
